@@ -288,6 +288,15 @@ def _spelling(ctx, abs_, ex):
                     n += 1
                     p = x
                     in_find = False
+                    # testing for the built-in reply type `void` is not a lookup of a declaration
+                    q = prog.parent(prog.parent(x)) if isinstance(prog.parent(x), ast.Attribute) else prog.parent(x)
+                    if isinstance(q, ast.Compare) and len(q.ops) == 1 and isinstance(q.ops[0], (ast.Eq, ast.NotEq)):
+                        other = q.comparators[0] if q.left is prog.parent(x) or q.left is x else q.left
+                        if isinstance(other, ast.Call) and getattr(other.func, 'id', '') in ('ns_ids_t', 'namespaceids_t') \
+                                and other.args and isinstance(other.args[0], ast.Constant) and other.args[0].value in ('void', 'bool'):
+                            run.holds('C07.spelling', fn.module.name, fn.qualname, q,
+                                      'comparison with the built-in type name (no declaration involved)', node=x)
+                            continue
                     while p is not None and not isinstance(p, ast.stmt):
                         if isinstance(p, ast.Call):
                             cs = [c for c in ctx.cg.env(fn).resolve_call(p) if isinstance(c, FuncInfo)]
